@@ -14,9 +14,17 @@ REQUIRED_THEOREMS = ['C04_rotate_psi', 'C04_rotate_psi_loop', 'C04_rotate_rho', 
 RULE = ("case = (n, per-letter dictionary (default X,Y,Z plus user-added random unitaries / Gaussian-integer matrices), basis string, "
         "explicit or model-derived psi / rho, batch of outcome states with repeats); all 3^n strings for n<=3 (quick) / n<=4 (thorough), sampled beyond; "
         "exact tier (Gaussian integers, model over Int, compared exactly) and tolerance tier (default dictionary); "
+        "the fast paths' internals (_rotate_basis_state: expanded states and coefficients, in order) compared as auxiliary points with the model's enumeration; "
         "non-trivial iff the basis has a non-Z letter and psi/rho has a non-real entry; distinct by hash of (dictionary, basis, operand, path)")
 TH = {"rotate_psi": "C04_rotate_psi", "rotate_rho": "C04_rotate_rho / C04_rotate_rho_hermitian",
-      "inner": "C04_inner_prod_dense", "probs": "C04_rho_probs_dense"}
+      "inner": "C04_inner_prod_enum_dense", "probs": "C04_rho_probs_enum_dense",
+      "expand": "C04_expand_enumerates / C04_rotate_basis_state"}
+
+REQUIRED_THEOREMS = ["C04_index_convention", "C04_rotate_psi", "C04_rotate_rho", "C04_rotate_rho_hermitian", "C04_rotate_psi_loop",
+                     "C04_rotate_rho_loop", "C04_dense_eq_kronecker", "C04_fastK_eq_dense", "C04_expand_enumerates", "C04_rotate_basis_state",
+                     "C04_inner_prod_enum", "C04_inner_prod_enum_dense", "C04_rho_probs_enum", "C04_rho_probs_enum_dense",
+                     "C04_dense_unitary", "C04_psi_probs_sum", "C04_rho_probs_nonneg", "C04_rho_probs_sum",
+                     "C04_dZ", "C04_dX_unitary", "C04_dX_eigen", "C04_dY_unitary", "C04_dY_eigen"]
 
 
 # ------------------------------------------------------------------ helpers
@@ -90,6 +98,30 @@ def make_dict(rng, exact):
     return d, td
 
 
+def expand_points(ctx, case, st, basis, td, states, n, us_enc, rot, exact, kind):
+    """auxiliary: the internals of the fast paths — `Ut, v = _rotate_basis_state(...)` (expanded states and coefficients IN THE
+    CODE'S ORDER) against the model's enumeration `Unitaries.rotateBasisState` (= expandStates + rotCoeff)"""
+    Ut, v = unitaries._rotate_basis_state(st, basis, torch.tensor(states, dtype=torch.double), unitaries=td)
+    Ut = np.asarray(Ut)
+    v = v.detach().cpu().numpy()
+    m = sum(rot)
+    shape_ok = Ut.shape == (2 ** m, len(states)) and v.shape == (2 ** m, len(states), n)
+    ctx.count(f"rotated_sites={m}")
+    if ctx.driver is None:
+        return
+    sfx = "_int" if exact else ""
+    r = ctx.driver.call("c04.expand" + sfx, n=n, us=us_enc, rot=rot, states=states)
+    mv = [e["v"] for e in r]                                   # B x 2^m x n
+    mU = np.array([[cdec(p, exact) for p in e["Ut"]] for e in r])  # B x 2^m
+    iv = np.rint(np.moveaxis(v, 0, 1)).astype(int).tolist() if shape_ok else {"shape": list(v.shape)}
+    ctx.point("_rotate_basis_state: expanded states v (order)", "aux", iv, mv, case, exact=True, theorem=TH["expand"],
+              sig=f"_rotate_basis_state.v/{kind}")
+    iU = np.moveaxis(Ut, 0, 1).ravel() if shape_ok else Ut.ravel()
+    ctx.point("_rotate_basis_state: coefficients Ut (order)", "aux", np.r_[iU.real, iU.imag], np.r_[mU.real.ravel(), mU.imag.ravel()], case,
+              scale=float(np.max(np.abs(mU))) + 1e-300, theorem=TH["expand"], sig=f"_rotate_basis_state.Ut/{kind}",
+              **({"rtol": 0, "atol": 0} if exact else {}))
+
+
 # ------------------------------------------------------------------ one case
 def one_case(ctx, case):
     n, basis, exact, kind = case["n"], case["basis"], case["exact"], case["kind"]
@@ -139,6 +171,7 @@ def one_case(ctx, case):
         ok = np.allclose(ip, (K @ psi)[batch], rtol=1e-9, atol=1e-9 * scale)
         ctx.oracle("rotate_psi_inner_prod == (kron(U) psi)[states]", bool(ok), case, detail={"impl": str(ip[:8]), "dense": str((K @ psi)[batch][:8])},
                    sig=f"rotate_psi_inner_prod/{kind}", theorem=TH["inner"])
+        expand_points(ctx, case, st, basis, td, states, n, us_enc, rot, exact, kind)
         if kind == "psi_model":
             p = np.abs(impl) ** 2
             Z = float(st.normalization(space_t))
@@ -191,6 +224,7 @@ def one_case(ctx, case):
         ok = np.allclose(pr, want, rtol=1e-9, atol=1e-8 * scale)
         ctx.oracle("rotate_rho_probs == diag(U rho U^dag)[states]", bool(ok), case, detail={"impl": pr[:8].tolist(), "dense": want[:8].tolist()},
                    sig=f"rotate_rho_probs/{kind}", theorem=TH["probs"])
+        expand_points(ctx, case, st, basis, td, states, n, us_enc, rot, exact, kind)
         if kind == "rho_model":
             Z = float(st.normalization(space_t))
             full = unitaries.rotate_rho_probs(st, basis, space_t, unitaries=td).detach().numpy()
